@@ -208,26 +208,34 @@ def createId (db : DB) : List Str → Except Err Str
   | [] => .error .exhausted
   | c :: cs => if db.has c then createId db cs else .ok c
 
+/-- the second half of `get_nameid`: draw an id, build the NameID, store it -/
+def createAndStore (K : Consts) (cfg : Cfg) (db : DB) (u fmt : Str) (spq nq : Option Str) (cands : List Str) :
+    Except Err (NameId × DB) :=
+  match createId db cands with                         -- drawn before the e-mail domain test
+  | .error e => .error e
+  | .ok id0 =>
+    if fmt = K.email ∧ cfg.domain.isEmpty = true then .error .samlError
+    else
+      let id := if fmt = K.email then id0 ++ 64 :: cfg.domain else id0
+      let nid : NameId := { fmt := some fmt, spq := spq, nq := nq, text := some id }
+      match store db u nid with
+      | .error e => .error e
+      | .ok db' => .ok (nid, db')
+
 /-- `IdentDB.get_nameid`. -/
 def getNameid (K : Consts) (cfg : Cfg) (db : DB) (u fmt : Str) (spq nq : Option Str) (cands : List Str) :
-    Except Err (NameId × DB) := do
-  let found ← if fmt = K.persistent then matchLocalId K db u spq nq else pure none
-  match found with
-  | some nid => pure (nid, db)
-  | none =>
-    let id ← createId db cands
-    let id ← if fmt = K.email then
-        (if cfg.domain.isEmpty then .error .samlError else pure (id ++ 64 :: cfg.domain))
-      else pure id
-    let nid : NameId := { fmt := some fmt, spq := spq, nq := nq, text := some id }
-    let db' ← store db u nid
-    pure (nid, db')
+    Except Err (NameId × DB) :=
+  match (if fmt = K.persistent then matchLocalId K db u spq nq else .ok none) with
+  | .error e => .error e
+  | .ok (some nid) => .ok (nid, db)
+  | .ok none => createAndStore K cfg db u fmt spq nq cands
 
 def persistentNameid (K : Consts) (cfg : Cfg) (db : DB) (u : Str) (spq nq : Option Str) (cands : List Str) :
-    Except Err (NameId × DB) := do
-  match ← matchLocalId K db u spq nq with
-  | some nid => pure (nid, db)
-  | none => getNameid K cfg db u K.persistent spq nq cands
+    Except Err (NameId × DB) :=
+  match matchLocalId K db u spq nq with
+  | .error e => .error e
+  | .ok (some nid) => .ok (nid, db)
+  | .ok none => getNameid K cfg db u K.persistent spq nq cands
 
 /-- `samlp.NameIDPolicy` as far as it is read here -/
 structure Policy where
@@ -236,21 +244,24 @@ structure Policy where
   allowCreate : Option Str := none
 deriving DecidableEq, Repr
 
+/-- requester and format `nim_args` ends up with -/
+def constructSpq (spq : Option Str) (pol : Option Policy) : Option Str :=
+  match pol with
+  | some p => if truthy p.spq then p.spq else spq
+  | none => spq
+def constructFmt (localFmt : Option Str) (pol : Option Policy) : Option Str :=
+  match pol with
+  | some p => if truthy p.fmt then p.fmt else localFmt
+  | none => localFmt
+
 /-- `construct_nameid` (with `nim_args`).  `localFmt` = what `local_policy.get_nameid_format`
     answers, `none` = no local policy. -/
 def constructNameid (K : Consts) (cfg : Cfg) (db : DB) (u : Str) (localFmt : Option Str) (spq : Option Str)
     (pol : Option Policy) (nq : Option Str) (cands : List Str) : Except Err (NameId × DB) :=
-  let spq' := match pol with
-    | some p => if truthy p.spq then p.spq else spq
-    | none => spq
-  let fmt? : Option Str := match pol with
-    | some p => if truthy p.fmt then p.fmt else localFmt
-    | none => localFmt
-  match fmt? with
+  match constructFmt localFmt pol with
   | none => .error .samlError                      -- "Unknown NameID format"
   | some fmt =>
-    let nq' := if truthy nq then nq else some cfg.nameQualifier
-    getNameid K cfg db u fmt spq' nq' cands
+    getNameid K cfg db u fmt (constructSpq spq pol) (if truthy nq then nq else some cfg.nameQualifier) cands
 
 /-- `find_nameid(userid, **kwargs)`; a filter entry is (index into ATTR, wanted value). -/
 def getField (n : NameId) : Nat → Option Str
@@ -301,13 +312,16 @@ inductive Manage where
   | noop
 deriving DecidableEq, Repr
 
+/-- the change a ManageNameID request makes to the presented NameID (it concerns SPProvidedID only) -/
+def Manage.apply (m : Manage) (n : NameId) : NameId :=
+  match m with
+  | .newId t => { n with spid := t }
+  | .newEncrypted => n
+  | .terminate => { n with spid := none }
+  | .noop => n
+
 /-- `handle_manage_name_id_request`. -/
 def manageRequest (db : DB) (n : NameId) (m : Manage) : Except Err (NameId × DB) :=
-  let n' : NameId := match m with
-    | .newId t => { n with spid := t }
-    | .newEncrypted => n
-    | .terminate => { n with spid := none }
-    | .noop => n
   if m = .noop then .ok (n, db)
   else
     match findLocalId db n with
@@ -315,7 +329,7 @@ def manageRequest (db : DB) (n : NameId) (m : Manage) : Except Err (NameId × DB
     | some id =>
       match removeRemote db n with
       | .error e => .error e
-      | .ok db1 => (store db1 id n').map (fun db2 => (n', db2))
+      | .ok db1 => (store db1 id (m.apply n)).map (fun db2 => (m.apply n, db2))
 
 /-! ### `SessionStorage.authn` keyed by `sha1(code(name_id))` (the digest is taken as injective:
     the model keys by the code itself) and `Server.clean_out_user` -/
@@ -399,13 +413,14 @@ def step (K : Consts) (cfg : Cfg) (st : State) : Op → Res × State
     | .ok (lid, s') => (.user lid, { st with sdb := s' })
     | .error e => (.refused e, st)
 
-/-- Run a history from a state; results in order. -/
-def run (K : Consts) (cfg : Cfg) : State → List Op → List Res × State
-  | st, [] => ([], st)
-  | st, op :: ops =>
-    let (r, st1) := step K cfg st op
-    let (rs, st2) := run K cfg st1 ops
-    (r :: rs, st2)
+/-- Run a history from a state: (operation, result, state after it) for every step. -/
+def trace (K : Consts) (cfg : Cfg) : State → List Op → List (Op × Res × State)
+  | _, [] => []
+  | st, op :: ops => (op, (step K cfg st op).1, (step K cfg st op).2) :: trace K cfg (step K cfg st op).2 ops
+
+def endState (K : Consts) (cfg : Cfg) : State → List Op → State
+  | st, [] => st
+  | st, op :: ops => endState K cfg (step K cfg st op).2 ops
 
 /-! ### `Eptid` -/
 
